@@ -22,7 +22,7 @@ import (
 
 var c06Profile = &kvh.GenProfile{
 	Weights: map[string]int{
-		"put": 36, "del": 14, "batch": 12, "merge": 15, "wipe": 2, "reopen": 16, "get": 2, "listkeys": 1, "sync": 1,
+		"put": 36, "del": 14, "batch": 12, "merge": 15, "wipe": 5, "reopen": 16, "get": 2, "listkeys": 1, "sync": 1,
 	},
 	MaxBatchOps: 6,
 	Big:         true,
@@ -32,7 +32,7 @@ var c06Profile = &kvh.GenProfile{
 
 var c18Profile = &kvh.GenProfile{
 	Weights: map[string]int{
-		"put": 44, "del": 12, "batch": 10, "merge": 16, "wipe": 2, "reopen": 16, "get": 1,
+		"put": 44, "del": 12, "batch": 10, "merge": 16, "wipe": 5, "reopen": 16, "get": 1,
 	},
 	MaxBatchOps: 5,
 	Big:         true,
@@ -187,7 +187,27 @@ func (o *mergeObs) inspectMergeDir(r *kvh.Runner) *kvh.Fail {
 	var hintErr error
 	gIO.Muted(func() {
 		scans, err = kvh.ScanDir(mdir, nil, r.Base, nil)
-		hf, e := datafile.OpenFile(mdir, 0, datafile.HintFileSuffix, fio.StandardFIO)
+		// the package's OpenFile creates what it does not find: read a copy, and only if the engine wrote a hint file
+		// at all (an observer that creates the missing file hides the consequences of its absence)
+		src := datafile.GetFileName(mdir, 0, datafile.HintFileSuffix)
+		b, e := os.ReadFile(src)
+		if e != nil {
+			if os.IsNotExist(e) {
+				r.Stats.Label("finished-merge-without-hint-file")
+				return
+			}
+			hintErr = e
+			return
+		}
+		cdir := filepath.Join(r.Base, "hintcopy")
+		_ = os.MkdirAll(cdir, 0o755)
+		cp := datafile.GetFileName(cdir, 0, datafile.HintFileSuffix)
+		if e := os.WriteFile(cp, b, 0o644); e != nil {
+			hintErr = e
+			return
+		}
+		defer os.Remove(cp)
+		hf, e := datafile.OpenFile(cdir, 0, datafile.HintFileSuffix, fio.StandardFIO)
 		if e != nil {
 			hintErr = e
 			return
